@@ -73,6 +73,32 @@ fn known_nonserializable() -> &'static Vec<String> {
                         out.push(s.to_string());
                     }
                 }
+                // writers that are not atomic against (almost) anything: any pair that involves one of them
+                for s in f["non_atomic_writers"].as_array().cloned().unwrap_or_default() {
+                    if let Some(s) = s.as_str() {
+                        out.push(format!("*{s}"));
+                    }
+                }
+            }
+        }
+        out
+    })
+}
+
+fn known_upward_sites() -> &'static Vec<String> {
+    static K: OnceLock<Vec<String>> = OnceLock::new();
+    K.get_or_init(|| {
+        let path = format!("{}/known_findings.json", verif_dir());
+        let Ok(text) = std::fs::read_to_string(path) else { return vec![] };
+        let Ok(v) = serde_json::from_str::<Value>(&text) else { return vec![] };
+        let mut out = vec![];
+        for f in v["findings"].as_array().cloned().unwrap_or_default() {
+            if f["property"] == "C15" && f["status"] == "open" {
+                for s in f["upward_wait_sites"].as_array().cloned().unwrap_or_default() {
+                    if let Some(s) = s.as_str() {
+                        out.push(s.to_string());
+                    }
+                }
             }
         }
         out
@@ -139,7 +165,42 @@ pub fn judge(which: Which, c: &ConcCase, st: &mut Stats) -> Result<(), Failure> 
     if let Some(dl) = &out.info.deadlock {
         st.class("outcome:deadlock");
         if which == Which::C15 {
-            let (sig, msg) = deadlock_signature(dl);
+            let (mut sig, mut msg) = deadlock_signature(dl);
+            // design rule of the crate (elementraw.rs): "parent element locks can only be acquired with try_lock".
+            // A thread that BLOCKS on the lock of an ancestor while it holds the lock of a descendant breaks that rule;
+            // such a wait is never part of the recorded finding, whatever the site.
+            for (t, r, held) in &dl.blocked {
+                if r.class != "ElementRaw" || r.kind != autosar_data::verif::LockKind::Block {
+                    continue;
+                }
+                for h in held.iter().filter(|h| h.class == "ElementRaw" && h.lock != r.lock) {
+                    let mut cur = h.lock;
+                    let mut steps = 0;
+                    while let Some(p) = out.parents.get(&cur) {
+                        steps += 1;
+                        if *p == r.lock {
+                            sig = format!("deadlock:blocking-wait-for-ancestor-lock:{}", fn_of_site(&r.site));
+                            msg = format!("thread {t} holds the lock of an element (taken at {}) and BLOCKS on the lock of its ancestor {steps} level(s) up at {} ({}): parent locks must only be taken with timed try-locks\n{msg}", h.site, r.site, fn_of_site(&r.site));
+                            break;
+                        }
+                        cur = *p;
+                        if steps > 64 {
+                            break;
+                        }
+                    }
+                }
+            }
+            if sig.starts_with("deadlock:blocking-wait-for-ancestor-lock") {
+                st.class("deadlock:upward-blocking-wait");
+                if std::env::var("VERIF_DUMP_SITES").is_ok() {
+                    eprintln!("UPWARD {sig}");
+                }
+                // the few sites where an OPERAND that happens to be an ancestor is locked with a blocking lock are recorded
+                let site = sig.rsplit_once("lock:").map(|x| x.1.to_string()).unwrap_or_default();
+                if known_upward_sites().contains(&site) {
+                    sig = "deadlock:all-blocked-requests-at-recorded-wait-sites".to_string();
+                }
+            }
             if nontrivial {
                 st.nontrivial(fp);
             }
@@ -188,7 +249,8 @@ pub fn judge(which: Which, c: &ConcCase, st: &mut Stats) -> Result<(), Failure> 
         if std::env::var("VERIF_DUMP_SITES").is_ok() {
             eprintln!("NONSER {sig}");
         }
-        if known_nonserializable().contains(&sig) {
+        let k = known_nonserializable();
+        if k.contains(&sig) || k.iter().any(|w| w.starts_with('*') && names.contains(&&w[1..])) {
             "not-serializable:recorded-operation-pair".to_string()
         } else {
             sig
@@ -327,6 +389,7 @@ pub fn run(ctx: &Ctx, which: Which) {
         COp { code: 27, a: 4, b: 0 },
         COp { code: 28, a: 0, b: 0 },
         COp { code: 29, a: 0, b: 0 },
+        COp { code: 29, a: 0, b: 1 },
         COp { code: 30, a: 0, b: 0 },
         COp { code: 31, a: 12, b: 0 },
         COp { code: 32, a: 12, b: 0 },
